@@ -212,7 +212,9 @@ impl G<'_> {
                 }
                 37..=48 => {
                     let mut r = self.expr(T::I, d1);
-                    if !matches!(r, E::Host(..) | E::Call(..) | E::Field(..)) && !matches!(r, E::Var(x) if self.annotated[x]) {
+                    // (a field of an anonymous literal with a type of its own is as open as the literal in it)
+                    let own_type = matches!(&r, E::Field(rec, _) if matches!(**rec, E::Record(true, _)));
+                    if own_type || !matches!(r, E::Host(..) | E::Call(..) | E::Field(..)) && !matches!(r, E::Var(x) if self.annotated[x]) {
                         // a literal (or a block ending in one) has type `{integer}`, which has no methods:
                         // give the receiver a definite type
                         r = E::Host(H_EMIT, vec![self.k(), r]);
